@@ -239,13 +239,17 @@ def main(argv=None):
         pre = plan.get("precheck")
         pre_out = pre(ctx) if pre else {}
         results = []
-        if pre_out.get("abort"):
-            # the encoder disagrees with the real code on concrete inputs: nothing it says is believed
-            for ob in [o for o in obligations if o.kind == "z3"]:
+        aborts = dict(pre_out.get("abort_by_harness") or {})
+        if pre_out.get("abort") and not aborts:
+            aborts = {"*": pre_out["abort"]}
+        if aborts:
+            # the encoder disagrees with the real code on concrete inputs (or cannot represent it): nothing it says is believed
+            hit = [o for o in obligations if o.kind == "z3" and (o.harness in aborts or "*" in aborts)]
+            for ob in hit:
                 results.append({"id": ob.id, "kind": ob.kind, "desc": ob.desc, "bounds": ob.bounds, "param": ob.param,
                                 "known_findings": [], "violations": [], "verdict": "INCONCLUSIVE",
-                                "why": "encoder validation failed: " + str(pre_out["abort"])[:300], "rounds": [], "secs": 0})
-            obligations = [o for o in obligations if o.kind != "z3"]
+                                "why": "encoder validation failed: " + str(aborts.get(ob.harness) or aborts.get("*"))[:300], "rounds": [], "secs": 0})
+            obligations = [o for o in obligations if o not in hit]
         with cf.ThreadPoolExecutor(max_workers=a.jobs) as ex:
             futs = {ex.submit(discharge, ob, ctx): ob for ob in obligations}
             for f in cf.as_completed(futs):
